@@ -45,8 +45,11 @@ ExpectedLines(bytes) == LET cs == CharsAllowed(bytes) IN SplitAtLf(cs, <<>>, <<>
 
 \* flatten the spans of a row into <<code point, meaning>>
 RECURSIVE FlatSpans(_)
+\* DEL is dropped from both sides (as in WinconExtract: the parser prints it, the property does not count it as text)
 FlatSpans(spans) == IF spans = <<>> THEN <<>>
-                    ELSE LET s == Head(spans) IN [i \in 1..Len(s.text) |-> <<s.text[i], s>>] \o FlatSpans(Tail(spans))
+                    ELSE LET s == Head(spans)
+                             t == SelectSeq(s.text, LAMBDA c : c # 127)
+                         IN [i \in 1..Len(t) |-> <<t[i], s>>] \o FlatSpans(Tail(spans))
 
 FgRowOk(line, spans, cfg) ==
   LET flat == FlatSpans(spans) IN
